@@ -92,11 +92,12 @@ Definition to_include (r : pres) : result terr bool :=
   | PNv _ => Err EUnsupported
   end.
 
-(* str field: model(value) = str(value) *)
+(* str field: model(value) = str(value); the value comes from the native environment, so an
+   Undefined object inside it is shown by THAT environment's class (probed constant) *)
 Definition to_text (r : pres) : result terr str :=
   match r with
   | PStr s => Ok s
-  | PObj v => to_str pnat v
+  | PObj v => to_str native_repr_fails pnat v
   | PNv _ => Err EUnsupported
   end.
 
@@ -105,7 +106,7 @@ Definition to_entries (r : pres) : result terr (list value) :=
   match r with
   | PNv (Str s) => Ok [VStr s]
   | PNv (Lst l) => Ok (map nv_to_value l)
-  | PObj (VList l) => Ok l
+  | PObj (VList l) | PObj (VTuple l) => Ok l
   | PObj (VRange n) => range_items n
   | PObj (VDict d) => Ok (map (fun kv => VStr (fst kv)) d)
   | PObj VUndef => undef_forced pnat []
